@@ -1,12 +1,10 @@
 SPECIFICATION Spec
 CONSTANTS
-  Res = {"r1", "r2"}
+  Res = {"r1", "c1"}
   Nss = {"n1", "n2"}
-  ClusterScoped = {}
+  ClusterScoped = {"c1"}
   MaxRevisions = 4
   MaxDeaths = 0
   HoldLock = TRUE
-INVARIANT Coverage
 INVARIANT NoF34
-PROPERTY EventuallyCovered
 CHECK_DEADLOCK FALSE
